@@ -572,10 +572,10 @@ func desugar(s string) string {
 			}
 			inner := s[i+1 : j]
 			// EqT(a, b) sugar
-			isEqT := ch == '(' && (endsWithWord(out.String(), "EqT") || endsWithWord(out.String(), "EqTP") || endsWithWord(out.String(), "Panics") || endsWithWord(out.String(), "Old") || endsWithWord(out.String(), "Returns") || strings.HasSuffix(out.String(), "verifspec.Old") ||
+			isEqT := ch == '(' && (endsWithWord(out.String(), "EqT") || endsWithWord(out.String(), "EqTP") || endsWithWord(out.String(), "Panics") || endsWithWord(out.String(), "Old") || endsWithWord(out.String(), "AtEntry") || strings.HasSuffix(out.String(), "verifspec.AtEntry") || endsWithWord(out.String(), "Returns") || strings.HasSuffix(out.String(), "verifspec.Old") ||
 				strings.HasSuffix(out.String(), "verifspec.EqT") || strings.HasSuffix(out.String(), "verifspec.Panics"))
 			isEq := ch == '(' && endsWithWord(out.String(), "Eq") || ch == '(' && strings.HasSuffix(out.String(), "verifspec.Eq")
-			if isEq || strings.Contains(inner, "Eq(") || strings.Contains(inner, "==>") || strings.Contains(inner, "forall ") || strings.Contains(inner, "exists ") || strings.Contains(inner, "EqT") || strings.Contains(inner, "Panics(") || strings.Contains(inner, "Old(") || strings.Contains(inner, "Returns(") || isEqT {
+			if isEq || strings.Contains(inner, "Eq(") || strings.Contains(inner, "==>") || strings.Contains(inner, "forall ") || strings.Contains(inner, "exists ") || strings.Contains(inner, "EqT") || strings.Contains(inner, "Panics(") || strings.Contains(inner, "Old(") || strings.Contains(inner, "AtEntry(") || strings.Contains(inner, "Returns(") || isEqT {
 				ti := strings.TrimSpace(inner)
 				if ch == '(' && (strings.HasPrefix(ti, "forall ") || strings.HasPrefix(ti, "exists ")) {
 					inner = desugar(ti)
@@ -615,7 +615,7 @@ func desugar(s string) string {
 	return qualifySpec(r)
 }
 
-var reSpecFn = regexp.MustCompile(`(^|[^A-Za-z0-9_.])(EqT|Eq|SameArray|Same|Fresh|Old|Calls|NoCalls|Unchanged|Panics|AtomicWrites|CalledOnce|TraceLen|TraceCall|Holding|Shared|Peek|Spawned|RunSpawned|IterLen|IterPosAtEntry|IterPos)\(`)
+var reSpecFn = regexp.MustCompile(`(^|[^A-Za-z0-9_.])(EqT|Eq|SameArray|Same|Fresh|Old|AtEntry|Calls|NoCalls|Unchanged|Panics|AtomicWrites|CalledOnce|TraceLen|TraceCall|Holding|Shared|Peek|Spawned|RunSpawned|IterLen|IterPosAtEntry|IterPos)\(`)
 
 func qualifySpec(s string) string {
 	for {
